@@ -421,6 +421,60 @@ def rule_pairwise_stateless(chk, prog):
     (r.bad if bad else r.ok)("checkpoint cache complete", f2.where(), bad or "")
 
 
+def rule_settings_dirty(chk, prog):
+    """A changed routing parameter / option reaches the next transaction."""
+    from ..cfg import CFG
+    r = chk.rule("SETTINGS-DIRTY", "who-writes of Router::m_routing_parameters / m_routing_options outside the constructor: after every such "
+                 "store, every path to the function's exit sets m_settings_changes = true (all parameters alike -- the nudging distance and "
+                 "the nudging options are read by the post-processing of EVERY transaction); Router::processTransaction returns early only "
+                 "if m_settings_changes is false (or SimpleRouting) and rerouteAndCallbackConnectors is reached otherwise", floor=3)
+    k = 0
+    for f in prog.all_functions():
+        if f.body is None or f.tmpl == "pattern" or "/libavoid/" not in f.file or f.q == "Avoid::Router::Router":
+            continue
+        ws = [node for lhs, node, op in writes(f) if written_field(lhs)[0] in ("Avoid::Router::m_routing_parameters", "Avoid::Router::m_routing_options")]
+        if not ws:
+            continue
+        g = CFG(f)
+        dirty = [node["id"] for lhs, node, op in writes(f) if written_field(lhs)[0] == "Avoid::Router::m_settings_changes" and op == "=" and
+                 literal_value(node["ch"][1]) == "true"]
+        dirty += [c["id"] for c in calls(f) if c.get("cname") == "Avoid::Router::registerSettingsChange"]
+        k += 1
+        r.count()
+        bad = None
+        for w in ws:
+            if w["id"] not in g.pos:
+                raise AnalysisBroken("%s: store is not a CFG element" % f.q)
+            p_ = g.must_follow(w["id"], dirty) if dirty else []
+            if p_ is not None:
+                bad = (f.loc(w), "after the store `%s` the function can return without marking the settings as changed%s: processTransaction() "
+                       "then returns early and existing routes keep the old value" % (src(w)[:60], (" (%s)" % g.describe(p_)) if p_ else ""))
+                break
+        (r.bad(f.q, bad[0], bad[1]) if bad else r.ok(f.q, f.where()))
+    if k < 2:
+        raise AnalysisBroken("setters of the routing parameters / options not found")
+    fn = prog.fn("Avoid::Router::processTransaction")
+    g = CFG(fn)
+    r.count()
+    bad = None
+    rets = [n for n in fn.nodes() if n.get("k") == "ReturnStmt" and literal_value(n["ch"][0]) == "false"] if True else []
+    rr = [c for c in calls(fn) if c.get("cname") == "Avoid::Router::rerouteAndCallbackConnectors"]
+    if not rr:
+        bad = "processTransaction no longer calls rerouteAndCallbackConnectors"
+    early = 0
+    for rt in rets:
+        if rr and g.search("entry", blocked=[rr[0]["id"]], targets=[rt["id"]]) is None:
+            continue        # a return after the rerouting
+        early += 1
+        pc = path_condition(fn, rt, inline=False)
+        f2 = ("and", pc, ("not", ("atom", "SimpleRouting")))
+        if not entails(f2, ("atom", "(m_settings_changes == false)")) and not entails(f2, ("not", ("atom", "m_settings_changes"))):
+            bad = bad or "processTransaction returns without rerouting under `%s`, which does not require m_settings_changes to be false" % show(pc)[:160]
+    if not early and not bad:
+        raise AnalysisBroken("processTransaction: the early `return false` was not recognised")
+    (r.bad if bad else r.ok)("processTransaction honours the flag", fn.where(), bad or "")
+
+
 def run(chk):
     prog = chk.load()
     cg = CallGraph(prog)
@@ -430,6 +484,7 @@ def run(chk):
     rule_limits_narrow(chk, prog)
     rule_region_closure(chk, prog)
     rule_pairwise_stateless(chk, prog)
+    rule_settings_dirty(chk, prog)
     from ..rules import mirrors
     r = chk.rule("MIRROR", "NudgingShiftSegment::lowC/highC and the scan-line helpers firstObstacleAbove/Below, markShiftSegmentsAbove/Below "
                  "stay exact mirror images (tables/mirrors.json)", floor=3)
